@@ -415,6 +415,29 @@ def rule_osh_end(prog):
             fl = receiver_fields(f, t)
             if fl:
                 empt.setdefault(fl[-1], []).append(bi)
+    # `while let Some(x) = self.list.pop_front() { .. }` empties the list as well: a loop that is only left through the None
+    # arm of a pop on the list; the list is empty from the exit target on
+    from rules.r_loopvar import loops_of
+    for lp in loops_of(f):
+        exits = [(b, s_) for b in lp.body for s_ in f.succs(b) if s_ not in lp.body and not f.is_cleanup(s_)]
+        if len(exits) != 1:
+            continue
+        eb, et = exits[0]
+        sw = f.term(eb)
+        if sw["k"] != "switch" or not is_place(sw["d"]):
+            continue
+        d = f.single_def(sw["d"]["l"])
+        if not (d and d[2] == "assign" and d[3]["k"] == "discr"):
+            continue
+        src = f.single_def(d[3]["p"]["l"])
+        if not (src and src[2] == "call" and (callee_name(src[3]) or "").split("::")[-1] in ("pop_front", "pop_back", "pop") and src[0] in lp.body):
+            continue
+        none_arm = [v for v, tb in sw["ts"] if tb == et] == [0] or (sw.get("o") == et and [v for v, _ in sw["ts"]] == [1])
+        if not none_arm:
+            continue              # the exit edge is the `None` arm (discriminant 0)
+        fl = receiver_fields(f, src[3])
+        if fl:
+            empt.setdefault(fl[-1], []).append(et)
     rets = set(f.return_blocks())
     anchor = empt.get("keys", [])
     if len(anchor) != 1 or len(lists) < 3:
